@@ -36,6 +36,11 @@ class DbWorker:
         self.fail_next: list[BaseException] = []  # injected faults for the next operations
         self.fail_matching: list[tuple[str, int, BaseException]] = []  # (label prefix, k, exc): fail the k-th op whose label starts with prefix
         self._match_counts: dict[str, int] = {}
+        # slow disk: when an operation whose label starts with `stall_on` reaches the head of the queue for the first time, nothing
+        # completes for the next `stall_iterations` scheduler iterations (operations keep piling up behind it)
+        self.stall_on: str | None = None
+        self.stall_iterations = 0
+        self._stall_left: int | None = None
         DbWorker.current = self
 
     def submit(self, label: str, fn: Callable[[], Any]) -> asyncio.Future[Any]:
@@ -75,6 +80,11 @@ class DbWorker:
     def actions(self) -> list[Action]:
         if not self.pending:
             return []
+        if self.stall_on is not None and self._stall_left is None and self.pending[0][0].startswith(self.stall_on):
+            self._stall_left = self.stall_iterations
+        if self._stall_left:
+            self._stall_left -= 1
+            return [Action("db:busy", [lambda: None], advance=True, idle=True)]  # the disk is busy: time passes, nothing completes
         return [Action(f"db:{self.pending[0][0]}", [self._complete])]
 
 
